@@ -212,6 +212,11 @@ IteratorDictString *StringDictionaryXBW::extractPrefix(uchar *str,
   xbw->subPathSearch(qry, strLen + 1, &left, &right);
   delete[] qry;
 
+  // No string uses the prefix (it may even be longer than any string, which
+  // the iterator's buffer could not hold)
+  if (left > right)
+    return NULL;
+
   return new IteratorDictStringXBW(str, strLen, left, right, xbw, maxlength);
 }
 
